@@ -878,7 +878,12 @@ func (g *c08Gen) usage() c08Vec {
 }
 
 func (g *c08Gen) metricOp(node string) {
-	o := &c08Op{Op: "metric", Node: node, Ut: g.relTime(), Ri: g.pick(-1, 0, 1, 5, 30, 60, 60), Usage: c08V(0, 0), Sys: c08V(0, 0)}
+	// report times on both sides of (assign time + report interval) and of the estimation deadlines (5 / 30 / 600 s windows)
+	ut := g.relTime()
+	if g.rng.Intn(3) == 0 {
+		ut = g.clock + g.pick(29, 30, 31, 59, 60, 61, 120, 299, 300, 301, 599, 600, 601, 660, 700)
+	}
+	o := &c08Op{Op: "metric", Node: node, Ut: ut, Ri: g.pick(-1, 0, 1, 5, 30, 60, 60), Usage: c08V(0, 0), Sys: c08V(0, 0)}
 	switch k := g.rng.Intn(12); {
 	case k == 0: // object as created by the controller: empty status
 		o.Ut = -1
